@@ -18,6 +18,9 @@ for d in $ids; do
   grep -q "components/forwarder\|components/fanin\|components/requeuer\|gochannel/fanout" $p && props="$props C17"
   grep -q "components/metrics\|components/delay\|message/decorator.go" $p && props="$props C20 C19 C07 C06"
   props=$(echo $props | tr ' ' '\n' | sort -u | tr '\n' ' ')
+  # BENIGN_ONLY="C02 C06": run only these of the mapped checks (after a change to some scenarios only)
+  if [ -n "${BENIGN_ONLY:-}" ]; then props=$(for q in $props; do for o in $BENIGN_ONLY; do [ $q = $o ] && echo -n "$q "; done; done); fi
+  [ -z "$props" ] && continue
   echo "=== $d -> $props"
   tools/try_benign.sh $p $props 2>&1 || bad=1
 done
